@@ -1,7 +1,376 @@
-//! stub
-use serde_json::Value;
-use crate::engine::Ctx;
-pub const RULE: &str = "";
-pub const ASSUMPTIONS: &[&str] = &[];
-pub fn run(_ctx: &Ctx) {}
-pub fn replay(_part: &str, _case: &Value) -> Result<(), String> { Err("not implemented".into()) }
+//! C16 — serial bus: one frame out per message, one frame in exactly when a reply is due.
+
+use std::io;
+
+use flipdot_core::SignBus;
+use flipdot_serial::SerialSignBus;
+use proptest::prelude::*;
+use serde::{Deserialize, Serialize};
+use serde_json::{json, Value};
+
+use crate::engine::{catch, h64, run_generated_n, show_bytes, Ctx, Stats};
+use crate::io::port::{Exhausted, PortState, ReadStep, TestPort, WriteStep};
+use crate::oracle::hex::{ref_decode, ref_encode, RefDecode};
+use crate::props::c01::{addr_strategy, byte_strategy};
+use crate::props::c15::IoKind;
+use crate::repr::{ref_classify, M};
+
+pub const RULE: &str = "exchanges = (message, reply tape, port faults): every message kind (including Unknown frames and the sign-side kinds ReportState/AckOperation) with parameters sampled across their ranges x a reply tape of 0..3 lines (frames of known messages, unknown frames, malformed text, nothing = timeout/EOF) plus trailing bytes x {no fault, short writes, Interrupted writes, Ok(0) or a hard write error at call k, fragmented reads, a hard read error at call k} on an instrumented port. Oracle: bytes written = exactly the message's frame encoding with CRLF (built from the protocol table by the harness), all writes before any read; a reply is read - exactly one line - if and only if the message is Hello/QueryState/RequestOperation and the result is the table interpretation of that line or an error if it does not decode / the read fails / nothing arrives; otherwise Ok(None) with zero read calls; a write failure gives Err and no read. Non-trivial = (message kind, reply class, fault point) triples other than (non-expecting kind, empty tape, no fault); distinct by hash of the case";
+pub const ASSUMPTIONS: &[&str] = &[
+    "expected wire bytes and reply interpretation come from the harness's protocol table and reference Intel-HEX codec, not from flipdot's conversions",
+    "pacing sleeps are real (C18 measures them); cases run on 64 threads so sleeping costs no CPU",
+];
+
+#[derive(Serialize, Deserialize, Debug, Clone, PartialEq, Eq, Hash)]
+pub enum Line {
+    Msg(M),
+    Raw(Vec<u8>),
+}
+
+#[derive(Serialize, Deserialize, Debug, Clone, PartialEq, Eq, Hash)]
+pub enum PortFault {
+    None,
+    ShortWrites(usize),
+    WriteInterrupted(usize),
+    WriteZero(usize),
+    WriteError(usize, IoKind),
+    ReadFragments(usize),
+    ReadInterrupted(usize),
+    ReadError(usize, IoKind),
+}
+
+#[derive(Serialize, Deserialize, Debug, Clone, PartialEq, Eq, Hash)]
+pub struct ExchangeCase {
+    pub msg: M,
+    pub tape: Vec<Line>,
+    /// lines are terminated by CRLF (true) or bare LF (false)
+    pub crlf: bool,
+    pub trailing: Vec<u8>,
+    pub fault: PortFault,
+    pub timeout_at_end: bool,
+}
+
+pub fn wire_of(m: &M) -> Vec<u8> {
+    let (a, t, d) = m.ref_frame();
+    ref_encode(a, t, &d)
+}
+
+fn tape_bytes(c: &ExchangeCase) -> (Vec<u8>, Option<usize>) {
+    let mut tape = vec![];
+    let mut first_end = None;
+    for l in &c.tape {
+        match l {
+            Line::Msg(m) => tape.extend_from_slice(&wire_of(m)),
+            Line::Raw(b) => tape.extend(b.iter().filter(|&&x| x != b'\n')),
+        }
+        tape.extend_from_slice(if c.crlf { b"\r\n" } else { b"\n" });
+        if first_end.is_none() {
+            first_end = Some(tape.len());
+        }
+    }
+    tape.extend_from_slice(&c.trailing);
+    if first_end.is_none() {
+        first_end = tape.iter().position(|&b| b == b'\n').map(|i| i + 1);
+    }
+    (tape, first_end)
+}
+
+pub fn reply_expected(m: &M) -> bool {
+    matches!(m, M::Hello(_) | M::Query(_) | M::Req(_, _))
+}
+
+pub fn make_port(c: &ExchangeCase) -> (TestPort, Vec<u8>, Option<usize>) {
+    let (tape, first_end) = tape_bytes(c);
+    let mut state = PortState::new(tape.clone());
+    state.on_exhausted = if c.timeout_at_end { Exhausted::TimedOut } else { Exhausted::Eof };
+    state.call_cap = 20_000;
+    match &c.fault {
+        PortFault::None => {}
+        PortFault::ShortWrites(n) => state.write_script = vec![WriteStep::Accept((*n).max(1)); 4000],
+        PortFault::WriteInterrupted(k) => {
+            state.write_script = vec![WriteStep::Accept(3); *k];
+            state.write_script.push(WriteStep::Interrupted);
+            state.write_script.push(WriteStep::Interrupted);
+        }
+        PortFault::WriteZero(k) => {
+            state.write_script = vec![WriteStep::Accept(2); *k];
+            state.write_script.push(WriteStep::Zero);
+        }
+        PortFault::WriteError(k, kind) => {
+            state.write_script = vec![WriteStep::Accept(2); *k];
+            state.write_script.push(WriteStep::Error(kind_of(kind)));
+        }
+        PortFault::ReadFragments(n) => state.read_script = vec![ReadStep::Serve((*n).max(1)); 4000],
+        PortFault::ReadInterrupted(k) => {
+            state.read_script = vec![ReadStep::Serve(1); *k];
+            state.read_script.push(ReadStep::Interrupted);
+        }
+        PortFault::ReadError(k, kind) => {
+            state.read_script = vec![ReadStep::Serve(1); *k];
+            state.read_script.push(ReadStep::Error(kind_of(kind)));
+        }
+    }
+    (TestPort::with_state(state), tape, first_end)
+}
+
+fn kind_of(k: &IoKind) -> io::ErrorKind {
+    match k {
+        IoKind::Other => io::ErrorKind::Other,
+        IoKind::TimedOut => io::ErrorKind::TimedOut,
+        IoKind::WouldBlock => io::ErrorKind::WouldBlock,
+        IoKind::UnexpectedEof => io::ErrorKind::UnexpectedEof,
+        IoKind::BrokenPipe => io::ErrorKind::BrokenPipe,
+    }
+}
+
+pub fn check_exchange(c: &ExchangeCase, st: &mut Stats) -> Result<(), String> {
+    let (port, tape, _first_end) = make_port(c);
+    let h = port.handle();
+    let mut bus = SerialSignBus::try_new(port).map_err(|e| format!("SerialSignBus::try_new failed on a cooperative port: {e}"))?;
+    let message = c.msg.to_message();
+    let result = catch(|| bus.process_message(message).map(|r| r.map(|m| M::from_message(&m))).map_err(|e| e.to_string()))
+        .map_err(|p| format!("SerialSignBus::process_message({}) panicked: {p}", c.msg.short()))?;
+    st.eval();
+    let s = h.borrow();
+    if s.cap_hit {
+        return Err("the serial bus keeps calling the port without making progress (call cap reached)".into());
+    }
+    let mut want_wire = wire_of(&c.msg);
+    want_wire.extend_from_slice(b"\r\n");
+    let write_failed = s.write_calls.iter().any(|r| match r.result {
+        Err(k) => k != io::ErrorKind::Interrupted,
+        Ok(0) => r.offered > 0,
+        _ => false,
+    });
+    let read_failed = s.read_calls.iter().any(|r| matches!(r.result, Err(k) if k != io::ErrorKind::Interrupted));
+    // all writes precede all reads
+    if let Some(first_r) = s.order.iter().position(|&x| x == b'r') {
+        if s.order[first_r..].iter().any(|&x| x == b'w') {
+            return Err(format!("{}: the port was written to after the reply had started to be read", c.msg.short()));
+        }
+    }
+    if write_failed {
+        if result.is_ok() {
+            return Err(format!("{}: the port's write failed but process_message returned {:?}", c.msg.short(), result));
+        }
+        if !s.read_calls.is_empty() {
+            return Err(format!("{}: a reply was read although writing the message failed", c.msg.short()));
+        }
+        if !want_wire.starts_with(&s.written) {
+            return Err(format!("{}: after a failed write the port holds {}, not a prefix of the frame", c.msg.short(), show_bytes(&s.written)));
+        }
+        st.class("write-failed");
+        return Ok(());
+    }
+    if s.written != want_wire {
+        return Err(format!(
+            "{}: the port received {} instead of exactly {}",
+            c.msg.short(),
+            show_bytes(&s.written),
+            show_bytes(&want_wire)
+        ));
+    }
+    if !reply_expected(&c.msg) {
+        if !s.read_calls.is_empty() {
+            return Err(format!("{}: no reply is due but the bus read from the port ({} read calls)", c.msg.short(), s.read_calls.len()));
+        }
+        match result {
+            Ok(None) => {}
+            other => return Err(format!("{}: no reply is due but process_message returned {:?}", c.msg.short(), other)),
+        }
+        st.class("no-reply-due");
+    } else {
+        if read_failed {
+            if result.is_ok() {
+                return Err(format!("{}: the port's read failed but process_message returned {:?}", c.msg.short(), result));
+            }
+            st.class("reply-read-failed");
+        } else {
+            let line_end = tape.iter().position(|&b| b == b'\n').map(|i| i + 1).unwrap_or(tape.len());
+            if s.pos != line_end {
+                return Err(format!(
+                    "{}: the bus consumed {} bytes of the reply stream {} but exactly one line ends at {}",
+                    c.msg.short(),
+                    s.pos,
+                    show_bytes(&tape),
+                    line_end
+                ));
+            }
+            let line = &tape[..line_end];
+            let want: Result<Option<M>, ()> = match ref_decode(line) {
+                RefDecode::Ok { addr, ty, data } => Ok(Some(ref_classify(addr, ty, &data))),
+                _ => Err(()),
+            };
+            match (&result, &want) {
+                (Ok(got), Ok(w)) => {
+                    if got != w {
+                        return Err(format!(
+                            "{}: reply line {} was returned as {:?}, the table says {:?}",
+                            c.msg.short(),
+                            show_bytes(line),
+                            got.as_ref().map(|m| m.short()),
+                            w.as_ref().map(|m| m.short())
+                        ));
+                    }
+                    st.class("reply-decoded");
+                }
+                (Err(_), Err(())) => st.class("reply-undecodable-or-missing"),
+                (Ok(got), Err(())) => {
+                    return Err(format!(
+                        "{}: the reply line {} does not decode (or nothing arrived) but process_message returned {:?} instead of an error",
+                        c.msg.short(),
+                        show_bytes(line),
+                        got.as_ref().map(|m| m.short())
+                    ))
+                }
+                (Err(e), Ok(w)) => {
+                    return Err(format!(
+                        "{}: the reply line {} decodes to {:?} but process_message failed: {e}",
+                        c.msg.short(),
+                        show_bytes(line),
+                        w.as_ref().map(|m| m.short())
+                    ))
+                }
+            }
+        }
+    }
+    let trivial = !reply_expected(&c.msg) && c.tape.is_empty() && c.fault == PortFault::None;
+    if !trivial {
+        st.nontrivial(h64(c));
+    }
+    if st.want_sample() && reply_expected(&c.msg) && !c.tape.is_empty() && c.fault != PortFault::None {
+        st.sample(json!({"message": c.msg.short(), "reply_stream": show_bytes(&tape), "fault": format!("{:?}", c.fault), "result": format!("{:?}", result.as_ref().map(|r| r.as_ref().map(|m| m.short())))}));
+    }
+    Ok(())
+}
+
+// ---------------------------------------------------------------------------------------
+
+pub fn any_msg_strategy() -> impl Strategy<Value = M> {
+    let a = addr_strategy;
+    prop_oneof![
+        3 => a().prop_map(M::Hello),
+        3 => a().prop_map(M::Query),
+        2 => a().prop_map(M::Goodbye),
+        2 => a().prop_map(M::PixelsComplete),
+        6 => (a(), 0u8..6).prop_map(|(a, o)| M::Req(a, o)),
+        2 => (a(), 0u8..13).prop_map(|(a, s)| M::Report(a, s)),
+        2 => (a(), 0u8..6).prop_map(|(a, o)| M::Ack(a, o)),
+        2 => any::<u16>().prop_map(M::Count),
+        // data chunks sleep 30 ms each: keep them a minority
+        1 => (a(), proptest::collection::vec(byte_strategy(), 0..=20)).prop_map(|(off, data)| M::Data { off, data }),
+        2 => (a(), 7u8..=255, proptest::collection::vec(byte_strategy(), 0..=5)).prop_map(|(addr, ty, data)| M::Unknown { addr, ty, data }),
+        1 => (a(), 1u8..=6, proptest::collection::vec(byte_strategy(), 2..=4)).prop_map(|(addr, ty, data)| M::Unknown { addr, ty, data }),
+    ]
+}
+
+fn reply_line_strategy() -> impl Strategy<Value = Line> {
+    let a = addr_strategy;
+    prop_oneof![
+        // in-progress reports sleep 100 ms: states 8 and 10 are drawn like any other state (2/13)
+        8 => (a(), 0u8..13).prop_map(|(a, s)| Line::Msg(M::Report(a, s))),
+        5 => (a(), 0u8..6).prop_map(|(a, o)| Line::Msg(M::Ack(a, o))),
+        2 => any_msg_strategy().prop_map(Line::Msg),
+        1 => Just(Line::Raw(vec![])),
+        1 => Just(Line::Raw(b":01000304FF".to_vec())),
+        1 => Just(Line::Raw(b":0100030407F0".to_vec())),
+        1 => Just(Line::Raw(b":0200030407F1".to_vec())),
+        2 => proptest::collection::vec(any::<u8>(), 0..16).prop_map(Line::Raw),
+    ]
+}
+
+fn fault_strategy() -> impl Strategy<Value = PortFault> {
+    let kind = || proptest::sample::select(vec![IoKind::Other, IoKind::TimedOut, IoKind::WouldBlock, IoKind::BrokenPipe]);
+    prop_oneof![
+        8 => Just(PortFault::None),
+        2 => (1usize..6).prop_map(PortFault::ShortWrites),
+        1 => (0usize..6).prop_map(PortFault::WriteInterrupted),
+        1 => (0usize..8).prop_map(PortFault::WriteZero),
+        2 => ((0usize..8), kind()).prop_map(|(k, e)| PortFault::WriteError(k, e)),
+        2 => (1usize..40).prop_map(PortFault::ReadFragments),
+        1 => (0usize..14).prop_map(PortFault::ReadInterrupted),
+        2 => ((0usize..16), kind()).prop_map(|(k, e)| PortFault::ReadError(k, e)),
+    ]
+}
+
+pub fn exchange_strategy() -> impl Strategy<Value = ExchangeCase> {
+    (
+        any_msg_strategy(),
+        proptest::collection::vec(reply_line_strategy(), 0..=3),
+        prop_oneof![4 => Just(true), 1 => Just(false)],
+        prop_oneof![3 => Just(vec![]), 1 => proptest::collection::vec(any::<u8>(), 0..8)],
+        fault_strategy(),
+        any::<bool>(),
+    )
+        .prop_map(|(msg, tape, crlf, trailing, fault, timeout_at_end)| ExchangeCase { msg, tape, crlf, trailing, fault, timeout_at_end })
+}
+
+pub fn run(ctx: &Ctx) {
+    // systematic part: every message kind x every reply class, no fault / each fault family
+    let mut cases: Vec<ExchangeCase> = vec![];
+    let mut msgs: Vec<M> = vec![M::Hello(3), M::Query(0xFFFF), M::Goodbye(3), M::PixelsComplete(0x100), M::Count(7), M::Report(3, 2), M::Ack(3, 1)];
+    for o in 0..6 {
+        msgs.push(M::Req(0x1234, o));
+    }
+    msgs.push(M::Data { off: 16, data: vec![1, 2, 3] });
+    msgs.push(M::Data { off: 0, data: vec![] });
+    msgs.push(M::Unknown { addr: 9, ty: 0x42, data: vec![1] });
+    let mut replies: Vec<Vec<Line>> = vec![vec![]];
+    for s in 0..13 {
+        replies.push(vec![Line::Msg(M::Report(3, s))]);
+    }
+    for o in 0..6 {
+        replies.push(vec![Line::Msg(M::Ack(0x1234, o)), Line::Msg(M::Report(3, 0))]);
+    }
+    replies.push(vec![Line::Msg(M::Unknown { addr: 1, ty: 0x77, data: vec![] })]);
+    replies.push(vec![Line::Raw(b"garbage".to_vec())]);
+    replies.push(vec![Line::Raw(vec![])]);
+    let faults = [
+        PortFault::None,
+        PortFault::ShortWrites(1),
+        PortFault::WriteError(0, IoKind::Other),
+        PortFault::WriteError(3, IoKind::BrokenPipe),
+        PortFault::WriteZero(1),
+        PortFault::ReadError(0, IoKind::Other),
+        PortFault::ReadError(5, IoKind::TimedOut),
+        PortFault::ReadFragments(64),
+    ];
+    for m in &msgs {
+        for r in &replies {
+            for f in &faults {
+                // keep the sleeping combinations in, but only once per fault family
+                cases.push(ExchangeCase { msg: m.clone(), tape: r.clone(), crlf: true, trailing: b"Z".to_vec(), fault: f.clone(), timeout_at_end: false });
+            }
+        }
+    }
+    let n = cases.len();
+    let next = std::sync::atomic::AtomicUsize::new(0);
+    std::thread::scope(|sc| {
+        for _ in 0..64 {
+            let cases = &cases;
+            let next = &next;
+            sc.spawn(move || {
+                let mut st = Stats::new();
+                loop {
+                    let i = next.fetch_add(1, std::sync::atomic::Ordering::Relaxed);
+                    if i >= cases.len() || ctx.stopped() {
+                        break;
+                    }
+                    if let Err(m) = check_exchange(&cases[i], &mut st) {
+                        ctx.fail("kinds-x-replies-x-faults", serde_json::to_value(&cases[i]).unwrap(), m);
+                        break;
+                    }
+                }
+                ctx.merge("kinds-x-replies-x-faults", st);
+            });
+        }
+    });
+    ctx.part_done("kinds-x-replies-x-faults", true, json!({"messages": msgs.len(), "reply_tapes": replies.len(), "faults": faults.len(), "cases": n}));
+
+    run_generated_n(ctx, "generated", ctx.tier.pick(40_000, 600_000), 64, exchange_strategy, |c, st| check_exchange(c, st));
+}
+
+pub fn replay(_part: &str, case: &Value) -> Result<(), String> {
+    let c: ExchangeCase = serde_json::from_value(case.clone()).map_err(|e| format!("bad case: {e}"))?;
+    check_exchange(&c, &mut Stats::new())
+}
